@@ -137,6 +137,8 @@ type c01Config struct {
 	MaxDepth   int    `json:"bfs_depth_bound"`
 	DiffEvery  int    `json:"projection_check_every"`
 	CrashInside bool  `json:"crash_inside_steps"`
+	Strategy    string `json:"byz_strategy"` // "" silent (menu only through deviations) | "own" | "nil" | "echo"
+	Base        string `json:"base_schedule"` // "" | "B3": the search starts from the state the base schedule reaches
 	BudgetS    int    `json:"budget_s"`
 }
 
@@ -190,8 +192,30 @@ func runC01Config(cfg c01Config) *c01Result {
 	var res *gResult
 	execs := 0
 	if cfg.Mode == "dev" {
+		var pre uint64
+		for mi, m := range bag {
+			mm := x.mt.msgs[m]
+			switch cfg.Strategy {
+			case "own": // pushes its own block X: proposes it whenever it is proposer and votes for it in every round
+				if mm.Block == "X" {
+					pre |= 1 << uint(mi)
+				}
+			case "nil": // votes nil in every round
+				if (mm.Kind == "prevote" || mm.Kind == "precommit") && mm.Block == "nil" {
+					pre |= 1 << uint(mi)
+				}
+			case "echo": // votes for every block the correct proposers propose (equivocating across values)
+				if (mm.Kind == "prevote" || mm.Kind == "precommit") && strings.HasPrefix(mm.Block, "B") {
+					pre |= 1 << uint(mi)
+				}
+			}
+		}
+		var prefix []dAction
+		if cfg.Base == "B3" {
+			prefix = scenarioLateCommit(x).actions()
+		}
 		dr := x.searchDev(devCfg{maxDev: cfg.Dev, maxCrashes: cfg.Crashes, menu: bag, byz: cfg.Byz, stop: stop,
-			maxStates: cfg.MaxStates, reorder: cfg.Reorder, crashInside: cfg.CrashInside})
+			maxStates: cfg.MaxStates, reorder: cfg.Reorder, crashInside: cfg.CrashInside, preAllow: pre, prefix: prefix})
 		res = &gResult{states: dr.states, transitions: dr.transitions, complete: dr.complete, depth: dr.maxDepth,
 			violations: dr.violations, finals: dr.finals, capHit: dr.capHit}
 		execs = dr.executions
@@ -292,6 +316,12 @@ func c01Configs(thorough bool) []c01Config {
 		}
 		cs = append(cs, c)
 	}
+	// addS: Byzantine validator follows a strategy by default (its matching menu messages are released to
+	// everybody from the start), optionally starting from the state reached by a base schedule
+	addS := func(name string, byz int, R int32, crashes int, dev int, strategy, base string) {
+		add(name, byz, R, crashes, "dev", dev, false, 0)
+		cs[len(cs)-1].Strategy, cs[len(cs)-1].Base = strategy, base
+	}
 	if !thorough {
 		// deviation-bounded DFS: every execution with <= D deviations from the synchronous scheduler
 		for _, byz := range []int{0, 1, 2, 3} {
@@ -300,6 +330,11 @@ func c01Configs(thorough bool) []c01Config {
 		add("B-nobyz-R1-crash1-dev1", -1, 1, 1, "dev", 1, true, 0)
 		add("C-byz3-R1-crash1-dev1", 3, 1, 1, "dev", 1, false, 0)
 		add("A-byz3-R2-dev1", 3, 2, 0, "dev", 1, false, 0)
+		addS("S-byz3-own-R2-dev1", 3, 2, 0, 1, "own", "")
+		addS("S-byz3-echo-R2-dev1", 3, 2, 0, 1, "echo", "")
+		addS("S-byz3-nil-R1-dev1", 3, 1, 0, 1, "nil", "")
+		addS("B3-byz3-own-R3-dev1", 3, 3, 0, 1, "own", "B3")
+		addS("B3-byz3-silent-R3-crash1-dev1", 3, 3, 1, 1, "", "B3")
 		// exact breadth-first search over ALL interleavings (no default scheduler) to a stated depth
 		add("A-byz3-R0-bfs5", 3, 0, 0, "bfs", 0, false, 5)
 		add("B-nobyz-R0-crash1-bfs5", -1, 0, 1, "bfs", 0, false, 5)
@@ -311,6 +346,13 @@ func c01Configs(thorough bool) []c01Config {
 	}
 	add("A-byz3-R2-dev2", 3, 2, 0, "dev", 2, false, 0)
 	add("A-byz2-R2-dev2", 2, 2, 0, "dev", 2, false, 0)
+	for _, st := range []string{"own", "echo", "nil"} {
+		addS("S-byz3-"+st+"-R2-dev2", 3, 2, 0, 2, st, "")
+		addS("S-byz2-"+st+"-R2-dev2", 2, 2, 0, 2, st, "")
+		addS("S-byz1-"+st+"-R1-dev2", 1, 1, 0, 2, st, "")
+		addS("B3-byz3-"+st+"-R3-crash1-dev2", 3, 3, 1, 2, st, "B3")
+	}
+	addS("B3-byz3-silent-R3-crash1-dev2", 3, 3, 1, 2, "", "B3")
 	add("A-byz3-R1-dev1-reorder", 3, 1, 0, "dev", 1, true, 0)
 	add("B-nobyz-R2-crash2-dev2", -1, 2, 2, "dev", 2, false, 0)
 	add("B-nobyz-R1-crash1-dev3", -1, 1, 1, "dev", 3, false, 0)
